@@ -35,7 +35,9 @@ RULE = ('fixed corpus (one history per anchor mechanism: accept/connect, read sp
 ASSUMPTIONS = [
     'loopback only (127.0.0.1 port 0, AF_UNIX paths in a mkdtemp directory); the kernel delivers loopback data/FIN/RST; the harness waits for '
     'that delivery with its own poll() on the same descriptors (bounded wall-clock wait whose expiry is inconclusive, never a verdict)',
-    'peers abort only connections the server has already accepted (a reset that beats accept() is outside the statement: no connection was accepted in the statement\'s sense)',
+    'a TCP connection reset before the server called accept() was never a connection in the statement\'s sense, so no connect is demanded for it; but the kernel still hands '
+    'the dead socket to accept(), and everything else is demanded of it: at most one connect (first), exactly one disconnect if any event carried the socket, nothing after it, '
+    'no residue in server or poller, socket released, descriptor closed (fd census)',
     'reads must equal the bytes sent only when the peer ended orderly, had drained everything the server wrote, and the server did not close first; otherwise a prefix is demanded',
     'error events between connect and disconnect are permitted (the statement does not mention them); after the disconnect nothing carrying the socket may be dispatched',
     'events fired by the harness itself (write/close addressed to a socket) are not counted as events "for that socket"',
@@ -48,7 +50,7 @@ ASSUMPTIONS = [
     'up to 3 s for that and calls the case inconclusive, not violated, if the kernel still shows no error/hang-up on the descriptor',
 ]
 REQUIRED = ['late_event_before_disconnect_was_dispatched', 'poller_Select', 'poller_Poll', 'poller_EPoll', 'family_tcp', 'family_unix', 'peer_half_close', 'peer_close', 'peer_abort',
-            'peer_close_while_server_writing', 'server_buffer_filled', 'server_close_event', 'server_close_while_buffered', 'late_write', 'late_close',
+            'peer_reset_before_accept', 'peer_close_while_server_writing', 'server_buffer_filled', 'server_close_event', 'server_close_while_buffered', 'late_write', 'late_close',
             'concurrent_ge3', 'concurrent_6', 'read_split_over_events', 'strict_equality_checked', 'prefix_checked', 'residue_scanned',
             'weakref_checked', 'residue_deciders_agree', 'fd_census_taken', 'connects_before_first_tick', 'client_peer_close', 'client_peer_abort',
             'client_local_close', 'client_reconnect', 'client_close_while_buffered', 'client_write_after_close']
@@ -65,8 +67,7 @@ LEVEL_TEXT = ('Histories of peer actions (connect, send, half-close, close, abor
               'attribute anywhere in the component tree may contain the socket object, the socket object must be garbage once the harness let go of it, '
               'and the set of open descriptors must be what it was before the first action. TCPClient components must report exactly one disconnected per '
               'connected. Held = no obligation failed on the histories run (sampling, not a proof).')
-LEVEL_NOTE = ('Trusted: the kernel\'s loopback delivery, the harness\' own poll() barrier and the catch-all observer. TLS, UDP and KQueue are not exercised; '
-              'connections reset before accept() are excluded.')
+LEVEL_NOTE = ('Trusted: the kernel\'s loopback delivery, the harness\' own poll() barrier and the catch-all observer. TLS, UDP and KQueue are not exercised.')
 
 POLLERS = ['Select', 'Poll', 'EPoll']
 K_TICKS = 4000        # upper bound of ticks per stepping phase (20000 bytes read 64 at a time need ~320)
@@ -404,7 +405,22 @@ class ServerWorld(World):
                 return
             live = c is not None and not self.disconnected(c)
             if kind == 'abort' and c is None:
-                return      # a reset that beats accept() is outside the statement (see ASSUMPTIONS)
+                # a reset that beats accept(): the kernel still hands the dead socket to accept(); whether the server announces it is not
+                # decided by the statement, but whatever it did with the socket it must undo (see ASSUMPTIONS)
+                if self.family != 'tcp' or P['state'] != 'open':
+                    return
+                _linger0(P['sock'])
+                P['sock'].close()
+                P['state'] = 'closed'
+                P['dirty'] = True
+                P['reset_before_accept'] = True
+                self.marks.add('peer_reset_before_accept')
+                # let the server accept everything that is pending, so that the accept order (= sighting order) stays known
+                self.advance(lambda: len(self.conns) >= len(self.order), hard=True, rounds=12)
+                if len(self.conns) < len(self.order):
+                    self.order.remove(p)      # the server never showed that socket to anyone: only the fd census can speak about it
+                    P['unsighted'] = True
+                return
             if live and self.poller.isWriting(c.strong):
                 self.marks.add('peer_close_while_server_writing')
             if kind == 'shutwr':
@@ -483,7 +499,7 @@ class ServerWorld(World):
         for op in self.case['ops']:
             self.do(op)
         # the end of every history: the harness closes what it still holds; every accepted connection must end
-        for p in list(self.order):
+        for p in list(self.peers):
             if self.peers[p]['state'] != 'closed':
                 self.do(['close', p, 'nw'])
         self.advance(lambda: len(self.conns) >= len(self.order), hard=True)
@@ -512,7 +528,12 @@ class ServerWorld(World):
             P = self.peers.get(p)
             names = [n for n, _ in c.events]
             counts['ONE_CONNECT'] += 1
-            if names.count('connect') != 1 or names[0] != 'connect':
+            if P is not None and P.get('reset_before_accept'):
+                # never a live connection: a connect is optional, but never more than one and never after anything else
+                bad_connect = names.count('connect') > 1 or ('connect' in names and names[0] != 'connect')
+            else:
+                bad_connect = names.count('connect') != 1 or names[0] != 'connect'
+            if bad_connect:
                 problems.append(('ONE_CONNECT', 'automaton', {'conn': c.index, 'events': _short_events(c.events)}))
             counts['ONE_DISCONNECT'] += 1
             nd = names.count('disconnect')
@@ -951,6 +972,9 @@ def corpus_histories():
     hs.append(('half-close', {}, [[C, 0], [S, 0, 700], [H, 0], [X, 0]], []))
     hs.append(('half-close-then-server-write', {}, [[C, 0], [S, 0, 70], [H, 0, 'nw'], [W, 0, 50], [D, 0], [X, 0]], []))
     hs.append(('abort', {}, [[C, 0], [S, 0, 300], [A, 0]], []))
+    hs.append(('reset-before-accept', {}, [[C, 0], [S, 0, 10], [C, 1, 'nw'], [A, 1], [S, 0, 10], [C, 2], [S, 2, 30], [X, 2], [X, 0]], []))
+    hs.append(('reset-before-accept-with-data-queued', {}, [[C, 0, 'nw'], [S, 0, 100, 'nw'], [A, 0], [C, 1], [S, 1, 30], [X, 1]], [[W, 0, 5]]))
+    hs.append(('reset-before-accept-among-pending', {}, [[C, 0, 'nw'], [C, 1, 'nw'], [C, 2, 'nw'], [A, 1], [S, 0, 10], [S, 2, 20], [X, 0], [H, 2]], []))
     hs.append(('abort-with-unread-data', {}, [[C, 0], [S, 0, 300, 'nw'], [A, 0]], []))
     hs.append(('echo-like', {}, [[C, 0], [S, 0, 64], [W, 0, 64], [D, 0], [S, 0, 64], [W, 0, 64], [D, 0], [X, 0]], []))
     hs.append(('server-close', {}, [[C, 0], [S, 0, 20], [Z, 0], [X, 0]], []))
